@@ -290,6 +290,10 @@ fn handle_eval_up_to_request(
         }
     };
 
+    // The file may never have been loaded in this session. Checking
+    // and evaluating its items needs its namespace to exist.
+    env.get_or_create_namespace(&path);
+
     let vfs_path = env.vfs.insert(Rc::new(path.clone()), src.to_owned());
     let (items, mut errors) = parse_toplevel_items(&vfs_path, src, &mut env.id_gen);
 
